@@ -929,6 +929,11 @@ impl Context {
             }
 
             if exit_early {
+                // The host pops this frame next: remove its stack slots (and the ones of
+                // the frames popped above it), like the non-nested exit above does.
+                self.vm.frame_mut().environments.truncate(env_fp as usize);
+                let frame = self.vm.frames.last().expect("frame must exist");
+                self.vm.stack.truncate_to_frame(frame);
                 return ControlFlow::Break(CompletionRecord::Throw(
                     self.vm
                         .pending_exception
